@@ -708,3 +708,46 @@ def lift_field_joins(t, depth=0):
         g = t[1]
         return ("gamma", g[1], tuple((lab, lift_field_joins((t[0], v) + tuple(t[2:]), depth + 1)) for lab, v in g[2])) + tuple(g[3:])
     return t
+
+
+def apply_fn_items(prog, te, t, depth=2):
+    """`binary(LogicalExpr::Or, l, r, m)` where `fn binary(c: fn(A, B) -> T, ..) -> T { c(box(l), box(r)) }`: a call of a
+    local, non-recursive helper that is handed a function item (an enum variant constructor or a function) and calls it —
+    the helper's body in its place, with the call through the parameter replaced by the item it stands for.  Returns t
+    unchanged when it is not of that shape."""
+    t0 = strip(t)
+    if depth <= 0 or not (isinstance(t0, tuple) and t0 and t0[0] == "call" and (t0[1].local or getattr(t0[1], "res_local", False))):
+        return t
+
+    def fnref(a):
+        a = strip(a)
+        while isinstance(a, tuple) and a and a[0] == "cast":
+            a = strip(a[2])
+        return a[1] if isinstance(a, tuple) and a and a[0] == "fnref" else None
+    items = {i + 1: fnref(a) for i, a in enumerate(t0[2]) if fnref(a) is not None}
+    if not items:
+        return t
+    hs = [h for h in prog.resolve(t0[1]) if "{closure" not in h.npath]
+    if len(hs) != 1 or hs[0].terms.ret is None or _calls(hs[0].terms.ret, hs[0]):
+        return t
+    body = strip(subst(hs[0].terms.ret, {i + 1: a for i, a in enumerate(t0[2])}))
+
+    def rebuild(x):
+        if not isinstance(x, tuple) or not x:
+            return x
+        if x[0] == "call":
+            args = tuple(rebuild(a) for a in x[2])
+            ft = getattr(x[1], "fterm", None)
+            ft0 = strip(ft) if ft is not None else None
+            while isinstance(ft0, tuple) and ft0 and ft0[0] in ("copy", "move", "ref", "deref"):
+                ft0 = strip(ft0[1])
+            if x[1].def_ == "<indirect>" and isinstance(ft0, tuple) and ft0 and ft0[0] == "param" and ft0[1] in items:
+                item = items[ft0[1]]
+                owner, _, vname = (item.def_ or "").rpartition("::")
+                adt = prog.adts.get(owner)
+                if adt and any(v["name"] == vname for v in adt.get("variants", [])):
+                    return ("agg", "adt", owner, vname, args, ())
+                return ("call", item, args) + tuple(x[3:])
+            return ("call", x[1], args) + tuple(x[3:])
+        return tuple(rebuild(a) if isinstance(a, tuple) else a for a in x)
+    return rebuild(body)
